@@ -240,6 +240,7 @@ func (c07) Run(e *Env) {
 		series = append(series, s)
 	}
 	nBatches := e.Range(1, 8*e.Depth())
+	repeatingGauges := e.Chance(1, 3)
 	batches := make([][]c07DP, nBatches)
 	ts := int64(1000)
 	id := 0
@@ -264,6 +265,9 @@ func (c07) Run(e *Env) {
 				d.rate = []float64{1, 0.5, 0.1, 0.25}[e.Draw(4)]
 			case "gauge":
 				d.value = float64(id)
+				if repeatingGauges {
+					d.value = float64(5 + 2*e.Draw(2)) // a gauge reported again with a value it had before
+				}
 			case "set":
 				d.member = fmt.Sprintf("m%d", e.Draw(5))
 			}
